@@ -235,7 +235,70 @@ func c05Str(v any) string {
 	return fmt.Sprint(v)
 }
 
+// runWide: an include with N props of alternating forms (static, bound, interpolated, v-bind:)
+func (c *c05Case) runWide(ctx *core.Ctx, n int) {
+	ctx.NonTrivial()
+	var props, body, want []string
+	for i := 0; i < n; i++ {
+		name := fmt.Sprintf("p%c", 'a'+i)
+		switch i % 4 {
+		case 0:
+			props = append(props, fmt.Sprintf(`%s="s%d"`, name, i))
+			want = append(want, fmt.Sprintf("s%d", i))
+		case 1:
+			props = append(props, fmt.Sprintf(`:%s="int7 + %d"`, name, i))
+			want = append(want, fmt.Sprint(7+i))
+		case 2:
+			props = append(props, fmt.Sprintf(`%s="x{{ o }}%d"`, name, i))
+			want = append(want, fmt.Sprintf("xOUT%d", i))
+		case 3:
+			props = append(props, fmt.Sprintf(`v-bind:%s="str"`, name))
+			want = append(want, "s")
+		}
+		body = append(body, fmt.Sprintf(`<i class="v">{{ %s }}</i>`, name))
+	}
+	inc := `<template include="` + c05Comp + `" ` + strings.Join(props, " ") + `></template>`
+	if c.Short {
+		inc = `<comp-box ` + strings.Join(props, " ") + `></comp-box>`
+	}
+	files := Files{c05Comp: `<div class="comp">` + strings.Join(body, "") + `</div>`,
+		"page.vuego": `<div id="inc">` + inc + `</div><p id="leak">` + strings.Join(body, "") + `</p>`}
+	data := map[string]any{"o": "OUT", "int7": 7, "str": "s"}
+	ctx.Eval(1)
+	out, err := renderPage(files, "page.vuego", data, vuego.WithComponents())
+	where := fmt.Sprintf("wide/%d", n)
+	if err != nil {
+		ctx.Violation("render-error", "wide", fmt.Sprint(c.Short), fmt.Sprintf("%v\n%s", err, files))
+		return
+	}
+	nodes := htmlcmp.Parse(out)
+	vals := func(id string) []string {
+		root := htmlcmp.ByID(nodes, id)
+		var r []string
+		if root == nil {
+			return nil
+		}
+		for _, e := range htmlcmp.Find([]*html.Node{root}, func(e *html.Node) bool { cl, _ := htmlcmp.Attr(e, "class"); return cl == "v" }) {
+			r = append(r, htmlcmp.Text(e))
+		}
+		return r
+	}
+	if got := vals("inc"); strings.Join(got, "|") != strings.Join(want, "|") {
+		ctx.Violation("prop-value", where, fmt.Sprint(c.Short), fmt.Sprintf("props seen by the component %q want %q\n%s", got, want, files))
+	}
+	if got := vals("leak"); strings.Join(got, "") != "" {
+		ctx.Violation("leak", where, fmt.Sprint(c.Short), fmt.Sprintf("props visible after the include: %q\n%s", got, files))
+	}
+	ctx.Outcome(out)
+}
+
 func (c *c05Case) Run(ctx *core.Ctx) {
+	if strings.HasPrefix(c.Shape, "wide:") {
+		var n int
+		fmt.Sscanf(c.Shape, "wide:%d", &n)
+		c.runWide(ctx, n)
+		return
+	}
 	files, data := c.files()
 	ctx.Eval(1)
 	ctx.NonTrivial()
@@ -413,7 +476,7 @@ func init() {
 	core.Register(&core.Check{
 		ID:    "C05",
 		Level: "exploration",
-		Rule: "every combination of prop a {omitted, static, interpolated, :bound / v-bind: to 11 values of every JSON-like type incl. 0/false/\"\"/nil/undefined, bound to 11 expressions that are not data paths (literals 0 / false / '' / 7 / true / 's', negations, comparisons, a sum)} x prop b {omitted, static, bound} x includer defines a / not x component front-matter defines a / defines it as null / not x :required {none, a, 'a, b', repeated, :require} x shape {single, twice with different props, inside v-for, nested include, include carrying v-if, include carrying v-else, include inside the slot content of the include} - the inner includes of the nested and slot shapes in shorthand form too - x {explicit include, registered shorthand}; " +
+		Rule: "every combination of prop a {omitted, static, interpolated, :bound / v-bind: to 11 values of every JSON-like type incl. 0/false/\"\"/nil/undefined, bound to 11 expressions that are not data paths (literals 0 / false / '' / 7 / true / 's', negations, comparisons, a sum)} x prop b {omitted, static, bound} x includer defines a / not x component front-matter defines a / defines it as null / not x :required {none, a, 'a, b', repeated, :require} x shape {single, twice with different props, inside v-for, nested include, include carrying v-if, include carrying v-else, include inside the slot content of the include} - the inner includes of the nested and slot shapes in shorthand form too - x {explicit include, registered shorthand}; plus includes carrying 1..14 props of alternating forms (static, bound expression, interpolated, v-bind:); " +
 			"oracle: reference scope model for the values and types printed inside, the includer's following siblings, error iff a required name was not provided, shorthand byte-identical. non-trivial = all",
 		Bounds:      map[string]string{"quick": "full product (include depth <= 2, fan-out <= 2)", "thorough": "same product"},
 		Assumptions: []string{"a required name that is visible from the includer's scope or the component's front-matter although the include does not pass it, and bindings of nil/undefined values, are unconstrained"},
@@ -426,6 +489,10 @@ func init() {
 			aForms = append(aForms, "vbind:int7", "vbind:zero", "vbind:str")
 			for _, n := range c05ExprNames {
 				aForms = append(aForms, "expr:"+n)
+			}
+			for n := 1; n <= 14; n++ {
+				emit(&c05Case{Shape: fmt.Sprintf("wide:%d", n)})
+				emit(&c05Case{Shape: fmt.Sprintf("wide:%d", n), Short: true})
 			}
 			for _, shape := range []string{"inforsame", "inforself"} {
 				for _, short := range []bool{false, true} {
